@@ -64,6 +64,13 @@ def obj_doc():
     return d
 
 
+def dag_doc():
+    """a JSON value in which the same containers are reachable along several paths (shared, not
+    cyclic): x = {...}; [x, x, {"a": x}] is an ordinary value as far as RFC 9535 is concerned"""
+    x = {"a": 1, "b": [1, {"a": 2}]}
+    return [x, x, {"a": x, "b": x["b"]}, [x["b"], x["b"]], x["b"]]
+
+
 def contexts(e, full):
     """(query text, document) pairs for expression e"""
     out = [(f"$[?{e}]", arr_doc()), (f"$[?{e}]", obj_doc())]
@@ -74,6 +81,7 @@ def contexts(e, full):
             (f"$[?@[?{e}]]", [arr_doc(), obj_doc(), 1, [], [0], [{"a": 1}], {"k": {"a": 1}}]),
             (f"$[?{e}, ?{e}]", [{"a": 1}, 0, [1], {"b": 1}]),
             (f"$[*][?{e}]", [[{"a": 1}, 0], {"k": [1], "l": 0}, 3]),
+            (f"$[?{e}]", dag_doc()), (f"$..[?{e}]", dag_doc()),
             (f"$[?{e}]", 1), (f"$[?{e}]", "a"), (f"$[?{e}]", None), (f"$[?{e}]", True),
         ]
     return out
@@ -83,7 +91,7 @@ def BOUNDS(tier):
     return {"atoms": len(TESTS) + len(CMPS), "unit_forms": 4, "children_kinds": len(CHILDREN),
             "max_units": 3 if tier == "quick" else 4,
             "contexts": ["$[?e] on array", "$[?e] on object", "$.k[? e ]", "$..[?e]", "$[?@[?e]]",
-                         "$[?e, ?e]", "$[*][?e]", "scalar roots"]}
+                         "$[?e, ?e]", "$[*][?e]", "$[?e] and $..[?e] on a value with shared containers", "scalar roots"]}
 
 
 U_ALL = units(TESTS, CMPS)
